@@ -57,6 +57,14 @@ func runCaseOf(c map[string]any) runCase {
 				}
 			}
 		}
+		if fs, ok := p["foreign"].([]any); ok {
+			for _, f := range fs {
+				a, _ := f.([]any)
+				if len(a) == 2 {
+					rc.Point.Fields = append(rc.Point.Fields, fieldSpec{unhx(a[0]), "bytes", unhx(a[1])})
+				}
+			}
+		}
 		if t, ok := num(p["time"]); ok {
 			rc.Point.Time = t
 		}
